@@ -214,7 +214,31 @@ def body(ck, F, cfg):
             pass
         where = FX.short(F.fn(P_INC)["sp"])
         guards = [it for it in I4.trace.items if it[0] == "guard"]
-        okg = len(guards) == 1 and isinstance(guards[0][1], Cond) and guards[0][1].op == "lt" and guards[0][1].neg and eq(guards[0][1].a, old) and eq(guards[0][1].b, new)
+        # the early exits, taken together, must mean exactly `old >= new` (however the comparison is spelled or split)
+        from ..alg import Bounds as _B, le as _le, lt as _lt
+
+        def facts_of(c, holds):
+            """(a, b) pairs meaning a <= b that follow from `c` being true (holds) / false"""
+            if not (isinstance(c, Cond) and c.op == "lt"):
+                return None
+            truth = holds != c.neg  # truth of the bare a < b
+            return [(c.a + 1, c.b)] if truth else [(c.b, c.a)]
+
+        okg = bool(guards)
+        none_taken = _B()
+        for g_ in guards:
+            fa = facts_of(g_[1], True)
+            fn_ = facts_of(g_[1], False)
+            if fa is None or fn_ is None:
+                okg = False
+                break
+            b1 = _B()
+            for x_, y_ in list(none_taken.facts) + fa:
+                b1.add_le(x_, y_)
+            okg = okg and _le(new, old, b1)  # each exit is taken only when old >= new
+            for x_, y_ in fn_:
+                none_taken.add_le(x_, y_)
+        okg = okg and _lt(old, new, none_taken)  # and when no exit is taken, old < new
         ck.require(okg, "R12.2", "increase:early-return", f"increase_capacity must return early exactly when gens_capacity >= new_capacity; guards: {[str(g[1]) for g in guards]}", where)
         shapes = [label_shape(c.info["label"]) for c in calls]
         tags = [s_[0] if s_ else None for s_ in shapes]
@@ -283,8 +307,11 @@ def body(ck, F, cfg):
     # local Iterator impls define only `next` (+ size_hint): every adaptor (skip, nth, step_by, take, zip, ..) then derives from
     # the analysed `next`; an overridden provided method would need its own agreement proof with `next`
     n_it = 0
+    reviewed_iters = ("generators::GeneratorsChain", "generators::AggregatedGensIter", "util::FrExp")
     for imp in F.items["impls"]:
         if (imp["trait"] or "").endswith("iter::Iterator") and imp["expn"] is None:
+            if not imp["self_ty"].startswith(reviewed_iters):
+                continue  # an iterator type the generator / power-sequence code does not use is not this property's business
             n_it += 1
             names = sorted(x.split("::")[-1] for x in imp["items"])
             extra = [x for x in names if x not in ("next", "size_hint", "Item")]
